@@ -638,6 +638,14 @@ rfbClientConnectionGone(rfbClientPtr cl)
 #endif
 #endif
 
+    /* the per-client list of enabled extensions (the extensions' own data is released by their
+       close() method in rfbCloseClient) */
+    while (cl->extensions) {
+        rfbExtensionData* next = cl->extensions->next;
+        free(cl->extensions);
+        cl->extensions = next;
+    }
+
     if (cl->screen->pointerClient == cl)
         cl->screen->pointerClient = NULL;
 
